@@ -105,6 +105,7 @@ def run(prop, tier):
     exec_ = build(prop, '-O2', fresh=False, cc='clang')
     res = core.run_slices(exec_, ['--suite', prop, '--tier', tier], timeout=1500 if tier == 'thorough' else 600, result=res, tag='clang -O2')
     res = core.run_slices(exe, ['--suite', prop, '--tier', 'quick' if tier == 'thorough' else tier, '--callmode', '1'], timeout=900, result=res, tag='calls through (name)(...)')
+    res = core.run_slices(exe, ['--suite', prop, '--tier', 'quick' if tier == 'thorough' else tier, '--callmode', '2'], timeout=900, result=res, tag='pointer arguments spelled as untyped sums')
     NOMACRO = ('-U__BYTE_ORDER__', '-U__ORDER_LITTLE_ENDIAN__', '-U__ORDER_BIG_ENDIAN__', '-U__ORDER_PDP_ENDIAN__', '-Wno-builtin-macro-redefined')
     exem = build(prop, '-O2', fresh=False, defs=NOMACRO, tag='-nomacro')
     res = core.run_slices(exem, ['--suite', prop, '--tier', tier], timeout=1500 if tier == 'thorough' else 600, result=res, tag='gcc -O2, byte-order macros undefined')
@@ -121,6 +122,22 @@ def run(prop, tier):
         res = core.run_slices(exel, ['--suite', prop, '--tier', tier if prop in ('C06', 'C09', 'C10') else 'quick' if tier == 'thorough' else 'lite'], timeout=1500 if tier == 'thorough' else 600, result=res, tag='llp64 (32-bit long)')
     except core.WorldUnavailable as e:
         res.incomplete.append('world left out: ' + str(e))
+    if prop == 'C08':
+        # AddressSanitizer world: library and thunks instrumented (recover mode), the bytes behind each message poisoned during
+        # the decoding calls - a read past the message that stays inside the page is seen here and nowhere else
+        b_ = os.path.join(core.ROOT, 'build', prop)
+        g_ = os.path.join(b_, 'gen')
+        wasan = core.build_world(os.path.join(b_, 'world-asan'), g_, cc='clang', cflags=('-O1', '-g', '-fsanitize=address', '-fsanitize-recover=address', '-fno-omit-frame-pointer'),
+                                 world_srcs=['wrap_generic.c', 'wrap_ser.c', 'wrap_bo.c'])
+        wd_ = os.path.join(b_, 'world-asan')
+        extra = []
+        for nm, dd in (('wrap_bo2', ['-DW_BO=w_bo2', '-DW_FORCE_BIG', '-Wno-builtin-macro-redefined']),):
+            o_ = os.path.join(wd_, nm + '.o')
+            core.par([['clang', '-std=gnu99', '-O1', *core.lib_flags(), '-I' + os.path.join(core.ROOT, 'world')] + dd + ['-c', os.path.join(core.ROOT, 'world', 'wrap_bo.c'), '-o', o_]])
+            extra.append(o_)
+        exea = core.link(os.path.join(b_, 'explore_ser-asan'), core.build_native(os.path.join(b_, 'native'), g_, ['common.c', 'explore_ser.c']) + wasan + extra, cc='clang', flags=['-fsanitize=address'])
+        envA = dict(os.environ, ASAN_OPTIONS='halt_on_error=0:detect_leaks=0:handle_segv=0:handle_sigbus=0:handle_abort=0:allow_user_segv_handler=1:detect_stack_use_after_return=0:print_summary=0')
+        res = core.run_slices(exea, ['--suite', prop, '--tier', 'lite' if tier == 'quick' else 'quick'], timeout=900, env=envA, result=res, tag='AddressSanitizer world (clang -O1)')
     if prop == 'C09':
         # the message need not start at a multiple of four (it follows a 14-byte Ethernet header in a frame buffer)
         for off in (1, 2, 3):
